@@ -13,7 +13,7 @@ S      : all representations evaluate to the same angular function at random θ;
          moving average for windows > 1; invariances of Distributions results: left-right mirror, top-bottom mirror (odd
          orders change sign), weight scaling, zero-weight pixels, origin as tuple / negative / string, larger rmax — on interior
          origins and on origins in a corner / on an edge (no folding), with and without weights, up to rmax='all', and for
-         the same pixels stored column-major
+         the same pixels stored column-major; one Distributions object reused for frames of other shapes = fresh objects
 """
 import json
 from fractions import Fraction
